@@ -253,10 +253,10 @@ EXTRA = {
     "C02": " Also (R02.3 = R32.2) metadata rows are an update of the decoded existing rows, decoded whenever the table holds metadata; (R02.4 = R01.2) every column write precedes sort.",
     "C03": " Also (R03.5) sample status is never decided by comparing the whole node-flags word (bitwise test or ts.samples() only); (R03.6) samples are never identified by position (num_samples is a count, not an id boundary).",
     "C04": " Also (R04.5) values computed over whole posterior-grid rows reach node positions only through the grid's own nonfixed_nodes order, never through a mask/arange (ascending id).",
-    "C08": " Also (R08.4) no dependence on node-flag bits other than NODE_IS_SAMPLE: flags are only bit-tested or moved as a column.",
+    "C08": " Also (R08.4) no dependence on node-flag bits other than NODE_IS_SAMPLE: flags are only bit-tested or moved as a column; (R08.5 = R32.2) a row's time metadata is built from that row's own decoded metadata only.",
     "C09": " Also (R09.7) a reused prior object is converted to the likelihood's space unconditionally; (R09.8 = R36.4) the on-disk prior cache is written losslessly so cold-cache and warm-cache calls compute from identical tables; (R09.9) NodeTimeValues never converts its arrays in place (clones share them).",
     "C10": " Also (R10.3) a mutation's edge id is NULL-tested before it indexes the per-edge count array (root mutations are not credited to the last edge); (R10.4) fit.node_posteriors() rows are scattered to nodes through nonfixed_nodes only.",
-    "C11": " Also (R11.3) grid rows (time-sorted) reach node ids only through nonfixed_nodes; (R11.4) samples are never identified by their position in the node table.",
+    "C11": " Also (R11.3) grid rows (time-sorted) reach node ids only through nonfixed_nodes; (R11.4) samples are never identified by their position in the node table; (R11.5 = R13.2) the maximization bound is a running minimum over estimated indices, independent of the (input-time) visiting order.",
     "C12": " Also (R12.4) BeliefPropagation.__init__ converts the prior grid to lik.probability_space unconditionally, for either space.",
     "C13": " Also (R13.3) clone consistency: the per-edge Poisson likelihood is the same expression for the first parent and for later parents.",
     "C16": " Also (R16.3) non-sample rows are selected through ts.samples(), never by position relative to num_samples.",
